@@ -1,6 +1,8 @@
 (* Extraction of the front engine (C02): the Includes mirror run through
-   Model.Front.  Only ExtrOcamlBasic is used. *)
+   Model.Front, and the class table of Spec.NoSilentSpec (which mirror produces
+   the report of a failure class, in which form).  Only ExtrOcamlBasic is used. *)
 Require Extraction.
 Require Import ExtrOcamlBasic.
-Require Import Model.Base Model.Includes Model.Front.
-Separate Extraction Base.base_roots Base.outcome Includes.run_project Includes.canon_idempotent_b Front.front_run.
+Require Import Model.Base Model.Includes Model.Front Spec.NoSilentSpec.
+Separate Extraction Base.base_roots Base.outcome Includes.run_project Includes.canon_idempotent_b Front.front_run
+  NoSilentSpec.class_table.
